@@ -140,7 +140,9 @@ DoMapRemoved(s, e) ==
   IN IF badEv /\ d14b THEN [s1 EXCEPT !.kflost = @ \cup {o.k}] ELSE s1
 
 DoSettled(s, e) ==
-  LET a == Vif(s, e.resident > s.maxsize, "C15", "memory_tier_above_maxsize_after_settling")
+  LET a0 == Vif(s, e.resident > s.maxsize, "C15", "memory_tier_above_maxsize_after_settling")
+      \* the same observation is C02's: after everything has drained the resident entries (unit costs) fit MaxSize
+      a == Vif(a0, e.resident > s.maxsize, "C02", "hybrid_resident_entries_above_maxsize_after_settling")
   IN Vif(a, s.failing = 1 /\ s.lastfail /\ e.errs = 0, "C15", "secondary_failure_not_reported_to_error_handler")
 
 Upd(s0, e) ==
